@@ -140,3 +140,9 @@ proof('C19', 'Every clause is machine-checked (kernel only), for all finite oper
       'from the monotonicity of rounding); and for |det A| >= 1/2 all 18 entries of A*invert(A) and invert(A)*A are within 1e-4 of the identity (invert_accurate32/64, proved bound 6.3e-5: minors, determinant, nine divisions, adjugate identity A adj(A) = det(A) I, final dot products; '
       'the determinant error is common to all entries and only scales the product). Zero-sign: "exactly" refers to real values, -0 and +0 are identified, as in the correspondence.',
       'Lean 4 rounding-error analysis over the reals (products, Cramer inverse) + exactness/monotonicity of rounding (identity); correspondence ties the model to the code')
+
+partial('C17', 'Proved (kernel only) for EVERY finite linear-RGB pixel of [0,1]^3: H in [0,360), S in [0,1], L in [0,1] exactly (hue_range, saturation_range, lightness - the exact ranges use the monotonicity of correct rounding, which the relative-error model cannot express); '
+        'L within 1.3e-7 of (max+min)/2; S within 1e-4 of (max-min)/(1-|2L-1|) for 0.01 <= L <= 0.99 (saturation_accurate); H within 0.01 degrees on the circle of the hexcone hue of the sextant of the maximum channel when max-min >= 0.01 (hue_accurate: the code picks the sextant by |max - c| < EPSILON, '
+        'the theorem shows the neighbouring formulas agree to 60*1.2e-7/(max-min) there, and that the two wrap-around steps only move the hue by a multiple of 360 up to 3e-5); L = 0 decodes to exactly black and L = 1 to exactly white for every finite hue in [0,360) and saturation in [0,1] (black_white). '
+        'NOT proved: the round trip LinearRgb -> Hsl -> LinearRgb within 1e-5 (bit-exact correspondence + oracle) - hence category other.',
+        'Lean 4 real-semantics proofs incl. monotone/exact rounding, fmod, max/min; correspondence + hexcone oracle for the round trip')
